@@ -134,6 +134,23 @@ theorem C16_distinct_cb :
     allBelow 256 (fun i => allBelow 256 (fun j => i == j || dasmCB.getD i "" != dasmCB.getD j "")) = true := by
   decide +kernel
 
+/-- the text is a function of the memory contents and of the register pairs the templates name, and of nothing
+    else: not of PC (the listing of an address does not depend on where the CPU currently is), the alternate set,
+    the control state or a pending request -/
+theorem C16_state_independent (a a' : Arch) (address : UInt16) (hb : a'.bus = a.bus)
+    (hr : ∀ r, a'.reg.get16 r = a.reg.get16 r) : dasm a' address = dasm a address := by
+  have hp : ∀ p, renderPiece a' address p = renderPiece a address p := by
+    intro p; cases p <;> simp [renderPiece, hb, hr]
+  have hf : renderPiece a' address = renderPiece a address := funext hp
+  simp only [dasm, render, hb, hf]
+
+theorem C16_pc_independent (a : Arch) (address pc : UInt16) : dasm (a.setPC pc) address = dasm a address :=
+  C16_state_independent a (a.setPC pc) address rfl (fun r => by cases r <;> rfl)
+
+theorem C16_request_independent (a : Arch) (address : UInt16) (i : Option UInt8) (n : Bool) :
+    dasm { a with int := i, nmi := n } address = dasm a address :=
+  C16_state_independent a _ address rfl (fun _ => rfl)
+
 /-- non-vacuity -/
 example : Spec.showPieces (dasmBase.getD 0x36 []) = "36 {b1} LD (${HL}),{b1}" ∧ rowOk 0x36 7 9 = true ∧
     mnemonicText 0x56 = "LD D,(${HL})" := by decide +kernel
